@@ -99,6 +99,8 @@ func child(id, tier string) int {
 		}
 	}
 	c.OpenJournal()
+	// unrelated library calls first: nothing they leave behind in package-level state may matter
+	mon.DisturbSharedState(c.Seed)
 	m.Run(c)
 	code := c.Finish()
 	os.WriteFile(filepath.Join(root(), "out", "journal", id+".done"), []byte(strconv.Itoa(code)), 0o644)
